@@ -31,13 +31,14 @@ RESERVED = {"Aliases", "Default", "Main"}
 
 # ---------------------------------------------------------------- spellings
 def rcase(rng, w, exported=True):
-    s = "".join(c.upper() if rng.random() < 0.5 else c.lower() for c in w)
+    """random letter case of the ASCII letters (other characters are left alone: the model's ToLower is ASCII)"""
+    s = "".join((c.upper() if rng.random() < 0.5 else c.lower()) if c.isascii() else c for c in w)
     r = rng.random()
     if r < 0.25:
         s = w
-    elif r < 0.4:
+    elif r < 0.4 and w.isascii():
         s = w.upper()
-    elif r < 0.5:
+    elif r < 0.5 and w.isascii():
         s = w.lower()
     if exported:
         s = s[0].upper() + s[1:]
@@ -603,6 +604,44 @@ def k_alias_case(P, c):
     P.local("", rcase(rng, P.word()))
 
 
+# characters an alias key may carry besides letters (written raw into the Go literal); a key is matched verbatim
+# after lower-casing.  Not generated: '"' and '\\' - measured on the unchanged tree they are spliced unescaped into
+# the generated main, which then does not compile (outside this property, see C19/C06 notes)
+KEY_SEPS = [" ", "\t", "-", ".", "_", "/", "'", "  ", "\u200b", "\u2060", "\ufffd", "\u00e9", "$", "%", "+"]
+
+
+def k_alias_key_spelling(P, c):
+    """alias keys with blanks, tabs, dashes, apostrophes, zero-width / format characters, U+FFFD, non-ASCII letters,
+    leading / trailing blanks - next to a target and an alias that equal the key with those characters removed: all
+    different names, `mage "pre commit"` runs the alias and `mage precommit` the target; collision: the same special
+    key once more in another letter case"""
+    rng = P.rng
+    w1, w2 = P.word(), P.word()
+    tgt = P.local("", rcase(rng, w1) + rcase(rng, w2))           # PreCommit
+    ref = P.local("", rcase(rng, P.word()))
+    ref2 = P.local("", rcase(rng, P.word()))
+    seps = rng.sample(KEY_SEPS, rng.choice([2, 3]))
+    keys = []
+    for sp in seps:
+        k = rcase(rng, w1 + sp + w2, False)
+        if rng.random() < 0.2:
+            k = rng.choice([" " + k, k + " ", "\t" + k])
+        if P.alias(k, rng.choice([ref, ref2])):
+            keys.append(k)
+    if rng.random() < 0.5:
+        v1, v2 = P.word(), P.word()                              # an alias equal to another key with the characters removed
+        sp = rng.choice(KEY_SEPS)
+        P.alias(rcase(rng, v1 + v2, False), ref)
+        P.alias(rcase(rng, v1 + sp + v2, False), ref2)
+    if rng.random() < 0.4:
+        i = P.imp(P.ial())
+        P.itgt(i, "", rcase(rng, P.word()))
+        nm = i["alias"] + ":" + i["tgts"][0]["name"]
+        P.alias(rcase(rng, i["alias"] + rng.choice([" :", ": ", "-", "\u200b:"]) + i["tgts"][0]["name"], False), ref)
+    if c and keys:
+        P.alias(variant(rng, keys[0], False), tgt)
+
+
 KINDS = [("fn_case", k_fn_case), ("method_case", k_method_case), ("namespace_case", k_namespace_case),
          ("fn_vs_method", k_fn_vs_method), ("two_imports_one_alias", k_two_imports_one_alias),
          ("same_name_two_aliases", k_same_name_two_aliases), ("root_vs_local", k_root_vs_local), ("two_roots", k_two_roots),
@@ -614,7 +653,7 @@ KINDS = [("fn_case", k_fn_case), ("method_case", k_method_case), ("namespace_cas
          ("pkg_root_twice", k_pkg_root_twice),
          ("decoys", k_decoys), ("decoy_across", k_decoy_across),
          ("imported_aliases", k_imported_aliases), ("named_import_same_names", k_named_import_same_names),
-         ("alias_case", k_alias_case)]
+         ("alias_case", k_alias_case), ("alias_key_spelling", k_alias_key_spelling)]
 
 # ways of invoking mage that must not influence what is accepted or which body runs: (flags, environment)
 MODES = {"plain": ([], {}), "-debug": (["-debug"], {}), "-v": (["-v"], {}), "MAGEFILE_DEBUG=1": ([], {"MAGEFILE_DEBUG": "1"}),
@@ -649,7 +688,7 @@ def fillers(P):
             P.own_alias(i, rcase(rng, rng.choice(names), False), rng.choice(i["tgts"])["id"])
             if rng.random() < 0.5:
                 i["own_default"] = rng.choice(i["tgts"])["id"]
-    for k in rng.sample(["zz", "f1", "al9", "k:l", "w8"], rng.choice([0, 0, 1, 2])):
+    for k in rng.sample(["zz", "f1", "al9", "k:l", "w8", "z z", "f-1", "q\u200bq", "k l"], rng.choice([0, 0, 1, 2])):
         P.alias(rcase(rng, k, False), P.some_def())
 
 
@@ -1037,5 +1076,6 @@ def render(spec):
 
 
 def _goq(s):
-    assert all(32 <= ord(c) < 127 and c not in '"\\' for c in s), s
+    """an interpreted Go string literal with every character written raw (no escapes: mage reads the literal's text)"""
+    assert all((ord(c) >= 32 or c == "\t") and c not in '"\\' and ord(c) != 127 for c in s), repr(s)
     return '"' + s + '"'
